@@ -92,29 +92,28 @@ class C20:
                         "the raster (rows=ydim, cols=xdim) must be returned either transposed with dims (xdim, ydim) or as is with dims "
                         "(ydim, xdim), carrying the template's coordinates for both dimensions: otherwise the axes are mislabelled", s.node.lineno)
 
-        # ---- R20.3 values
-        LEN = lambda x: ("call", ("builtin", "len"), (x,), ())
+        # ---- R20.3 values: the element burnt for geometry number I, in both cases of `values`
+        from sa import seqview
+        LEN = seqview.LEN
         isseq = ("call", ("builtin", "isinstance"), (values, ("tuple", (("builtin", "list"), ("builtin", "tuple")))), ())
-        v_eff = None
-        for x in walk(shapes if shapes is not None else NONE):
-            pass
+        I = ("param", "__i__")
         bad = None
+        sh_item = seqview.item(shapes, I) if shapes is not None else None
+        sh_len = seqview.length(shapes) if shapes is not None else None
         for is_seq in (False, True):
             env = {isseq: is_seq}
-            # effective values term under this case
-            vt = None
-            for e in s.raises:
-                pass
-            # find the values term used in shapes
-            cands = [x for x in walk(shapes) if x[0] == "ite" and x[1] in (isseq, NOT(isseq))] if shapes is not None else []
-            vt = peval(cands[0], env) if cands else values
-            if not is_seq:
-                want = ("bin", "*", ("list", (values,)), LEN(geoms))
-                if vt != want:
-                    bad = f"a scalar value is not broadcast to one value per geometry: {show(vt)[:60]}"
-            else:
-                if vt != values:
-                    bad = f"a value list is not used as given: {show(vt)[:60]}"
+            it_ = peval(sh_item, env) if sh_item is not None else None
+            vt = it_[1][1] if it_ is not None and it_[0] == "tuple" and len(it_[1]) == 2 else None
+            if vt is None:
+                bad = "the shapes handed to rasterio are not (shape, value) pairs aligned with the geometries"
+                break
+            if not is_seq and vt != values:
+                bad = f"a scalar value is not broadcast to one value per geometry: geometry number i is burnt with {show(vt)[:60]}"
+            if is_seq and vt != ("sub", values, I):
+                bad = f"a value list is not used as given: geometry number i is burnt with {show(vt)[:60]}"
+            ln = peval(sh_len, env) if sh_len is not None else None
+            if not is_seq and ln is not None and ln != LEN(geoms) and not (ln[0] == "call" and ln[1] == ("builtin", "min") and set(ln[2]) == {LEN(geoms)}):
+                bad = bad or f"a scalar value is repeated {show(ln)[:40]} times instead of once per geometry"
         rej = [r for r in s.raises if any(c[0] == "cmp" and c[1] == "ne" and LEN(geoms) in (c[2], c[3]) for c in conjuncts(r.live))]
         if bad is None and rej and rej[0].idx < call.idx:
             ctx.ok("R20.3", site, "scalar broadcast to len(geometries); length mismatch rejected before rasterising")
@@ -135,7 +134,14 @@ class C20:
                 for x in walk(r.term):
                     if x[0] in ("list", "tuple") and len(x[1]) == 2 and all(any(y in (xdim, ydim) for y in walk(c)) for c in x[1]):
                         pairs.append((x[1][0], x[1][1], r))
-            if not pairs:
+            layout = [x for r in ls.returns for x in walk(r.term)
+                      if (x[0] == "call" and x[1][0] == "attr" and x[1][2] == "get_axis_num") or (x[0] == "attr" and x[2] == "dims" and x[1] == arr)]
+            if not pairs and layout:
+                ctx.bad("R20.6", self.file, "rasterize", f"vertex = {show(ls.returns[0].term)[:80]}",
+                        f"the components of a transformed vertex are ordered by the template's own dimension order (`{show(layout[0])[:60]}`), "
+                        "not fixed as (x index, y index): for a template laid out (ydim, xdim) the two components are swapped and the "
+                        "geometries are burnt transposed", ls.returns[0].lineno, witness={"template dims": "(frequency, time)"})
+            elif not pairs:
                 ctx.undec("R20.6", site, "no (x component, y component) pair found in the coordinate transform")
             for c0, c1, r in pairs:
                 m0 = {d for d in (xdim, ydim) if any(y == d for y in walk(c0))}
@@ -192,24 +198,20 @@ class C20:
                             "beyond the template would abort the rasterisation", fs.node.lineno)
             if okk:
                 ctx.ok("R20.4", f"{self.file}:{fs.node.lineno} rasterize.{name}", "x -> index on xdim, y -> index on ydim, clamped")
-        # ---- R20.5 order & forwarding
+        # ---- R20.5 order & forwarding: element number I of the shapes is the transform of geometry number I
         conv = ("global", f"{CONV}:geometry_to_shapely", "func")
         order_ok = False
-        if shapes is not None and shapes[0] == "call" and shapes[1] in (("builtin", "list"), ("builtin", "tuple")) and len(shapes[2]) == 1 \
-                and shapes[2][0][0] == "call" and shapes[2][0][1] == ("builtin", "zip") and len(shapes[2][0][2]) == 2:
-            # list(zip(a, b)) is [(x, y) for x, y in zip(a, b)]
-            shapes = ("comp", "list", ("tuple", (("sub", ("elem", "Z"), ("const", 0)), ("sub", ("elem", "Z"), ("const", 1)))), (("Z", shapes[2][0], ()),))
-        if shapes is not None and shapes[0] == "comp" and len(shapes[3]) == 1 and not shapes[3][0][2]:
-            it = shapes[3][0][1]
-            e = ("elem", shapes[3][0][0])
-            if it[0] == "call" and it[1] == ("builtin", "zip") and len(it[2]) == 2 and shapes[2] == ("tuple", (("sub", e, ("const", 0)), ("sub", e, ("const", 1)))):
-                g0 = it[2][0]
-                if g0[0] == "comp" and len(g0[3]) == 1 and g0[3][0][1] == geoms and not g0[3][0][2]:
-                    ge = ("elem", g0[3][0][0])
-                    inner = g0[2]
-                    order_ok = inner[0] == "call" and inner[1] == ("ext", "shapely.transform") and inner[2][:1] == (("call", conv, (ge,), ()),)
+        if sh_item is not None and sh_item[0] == "tuple" and len(sh_item[1]) == 2:
+            g_i = sh_item[1][0]
+            order_ok = g_i[0] == "call" and g_i[1] == ("ext", "shapely.transform") and g_i[2][:1] == (("call", conv, (("sub", geoms, I),), ()),)
+            ln = sh_len
+            if ln is not None and ln[0] == "ite":
+                ln = None if not all(peval(sh_len, {isseq: v_}) in (LEN(geoms), LEN(values), ("call", ("builtin", "min"), (LEN(geoms), LEN(values)), ()))
+                                     for v_ in (False, True)) else LEN(geoms)
+            if ln is not None and ln != LEN(geoms) and not (ln[0] == "call" and ln[1] == ("builtin", "min") and LEN(geoms) in ln[2]):
+                order_ok = False
         if order_ok:
-            ctx.ok("R20.5", site, "shapes = [(transform(to_shapely(g)), v) for g, v in zip(geometries, values)] in input order")
+            ctx.ok("R20.5", site, "shapes[i] = (transform(to_shapely(geometries[i])), values[i]) for every i, in input order")
         else:
             ctx.bad("R20.5", self.file, "rasterize", f"shapes={show(shapes)[:80] if shapes else '-'}",
                     "the shapes handed to rasterio must be the transformed geometries paired with their values, in input order and "
